@@ -909,6 +909,8 @@ R9_RULES = [
             "let mut r9_n: usize = 0; let r9_end: usize = $$n; while r9_n < r9_end { let $i = r9_n; r9_n = r9_n + 1;"),
     ("R9k", "for $x in $$e . iter_mut ( ) {",
             "let mut r9_n: usize = 0; while r9_n < $$e.len() { let $x = &mut $$e[r9_n]; r9_n = r9_n + 1;"),
+    ("R9w", "for $x in $$e ? {",
+            "let mut r9_q = $$e?; while r9_q.len() > 0 { let $x = vec_take_first(&mut r9_q);"),
     ("R9j", "for $x in $e {",
             "let mut r9_q = $e; while r9_q.len() > 0 { let $x = vec_take_first(&mut r9_q);"),
     ("R9f", "for $x in $$e . iter ( ) {",
